@@ -1091,9 +1091,12 @@ class PureScheduler:                                    # pylint: disable=r0902
                     if DEBUG:
                         self._show_task_stack(done_task, "DEBUG")
             if critical_failure:
+                # record the verdict first: if we get cancelled during the
+                # clean up (nested scheduler whose enclosing scheduler ends
+                # in the meanwhile), the lines below are not reached
+                self._failed_critical = True
                 await self._tidy_tasks(pending)
                 await self.co_shutdown()
-                self._failed_critical = True
                 await self._feedback(
                     None, "Emergency exit upon exception in critical job",
                     force=True)
